@@ -18,7 +18,9 @@ RULE = ("explicit-state breadth-first search over tool histories: state = plotfi
         "roots = a 2D and two 3D generated plotfiles and a chk2plt conversion; every state is deduplicated on a canonical key "
         "(contents bits + on-disk layout) and checked: reference validation, taste (default + coordinates), contents = the "
         "same pure operations applied to the RefPlot; refusals (mismatched combine, nothing to add) must raise; "
-        "non-trivial = states at depth >= 2")
+        "non-trivial = states at depth >= 2; plus, on a thermochemical plotfile with undefined states (3 layouts): cook with "
+        "kept fields (3-argument user recipe, ENT, SDi, HRR; serial and pooled), combine back in both orders, strain all - "
+        "kept and original components bit-equal to the input")
 ASSUMPTIONS = ["controlled in-process pool, identity schedule", "combine inputs are opened once per state and the reader object is re-used by every combine of that state", "field names stay unique along a history (events that would repeat a name are disabled)"]
 CASE_TIMEOUT = 3000
 
@@ -69,7 +71,83 @@ def cases(tier, seed):
             out.append({"root": name, "first": first, "depth": depth, "seed": seed, "w": 1})
     for first in range(16):
         out.append({"root": "chk", "first": first, "depth": depth, "seed": seed, "w": 1})
+    for layout in range(3):
+        for cook in range(len(THERMO_COOKS)):
+            for serial in ((1, 0) if tier == "thorough" or cook < 2 else (1,)):
+                out.append({"root": "thermo", "layout": layout, "cook": cook, "serial": serial, "seed": seed, "w": 2})
     return out
+
+
+THERMO_COOKS = [("USER_S", "Y(O2) temp"), ("USER_S", "temp Y(H2) Y(O2) Zmix"), ("ENT", "Y(O2) temp"), ("SDi", "Y(O2) Y(N2)"), ("HRR", "temp density")]
+
+
+def run_thermo_case(case, workdir):
+    """the 'in particular' clause on a thermochemical plotfile (cells with an empty composition at a non-zero temperature,
+    cells at T = 0): cook with kept fields (3-argument user recipe / built-in Cantera recipes), combine back in both orders,
+    strain everything.  The NEW components are taken as written (their values are C11's subject); every kept and every
+    original component must be the input's, bit for bit."""
+    from amr_kitchen.chef import Chef
+    from amr_kitchen.colander import Colander
+    from amr_kitchen import PlotfileCooker
+    from ..refmodel import write_plotfile
+    from . import c11
+    rec = Rec()
+    d = c11.thermo_desc(case["seed"], case["layout"])
+    ref = c11.thermo_ref(d)
+    src = os.path.join(workdir, "plt_thermo")
+    write_plotfile(d, src, ref=ref)
+    before = tree_digest(src)
+    rname, kept = THERMO_COOKS[case["cook"]]
+    recipe = rname
+    if rname == "USER_S":
+        recipe = os.path.join(workdir, "rs.py")
+        with open(recipe, "w") as f:
+            f.write(c11.RS)
+    kw = {"species": ["H2"]} if rname == "SDi" else {}
+    sub = {"root": "thermo", "layout": case["layout"], "recipe": rname, "kept": kept}
+    out = os.path.join(workdir, "cooked")
+    with vpool.controlled():
+        st, val = call(lambda: Chef(src, recipe=recipe, outfile=out, mech=c11.MECH, pressure=1.0, serial=bool(case["serial"]), kept_fields=kept, **kw).cook())
+    rec.exe(["thermo", "chef", rname, kept, case["layout"]], nontrivial=True)
+    if st == "exc":
+        rec.fail("raised", sub, exc_text(val))
+        return rec.result()
+    pp = oracle.parse_output(rec, sub, out)
+    if pp is None:
+        return rec.result()
+    kn = kept.split()
+    ki = [ref.fields.index(k_) for k_ in kn]
+    got = pp.to_refplot()
+    if got.fields[:len(kn)] != kn or got.boxes != ref.boxes:
+        rec.fail("fields", sub, "cooked fields %r on boxes equal to the input's: %r" % (got.fields, got.boxes == ref.boxes))
+        return rec.result()
+    new = got.fields[len(kn):]
+    cooked = ref.with_fields(kn + new, lambda lv, b: np.concatenate([ref.data[lv][b][..., ki], got.data[lv][b][..., len(kn):]], axis=-1))
+    ok = check_state(rec, dict(sub, step="cooked"), out, cooked)
+    fn = sys.modules["amr_kitchen.combine.combine"].combine
+    for order, a, b, pa, pb in (("orig,cooked", ref, cooked, src, out), ("cooked,orig", cooked, ref, out, src)):
+        o2 = os.path.join(workdir, "comb_" + order.replace(",", "_"))
+        with vpool.controlled():
+            st, val = call(lambda: fn(PlotfileCooker(pa), PlotfileCooker(pb), pltout=o2))
+        rec.exe(["thermo", "combine", order, rname, kept, case["layout"]], nontrivial=True)
+        s2 = dict(sub, step="combine " + order)
+        if st == "exc":
+            rec.fail("raised", s2, exc_text(val))
+            continue
+        if ok:
+            check_state(rec, s2, o2, a.combine(b))
+        o3 = o2 + "_strained"
+        with vpool.controlled():
+            st, val = call(lambda: Colander(plotfile=o2, limit_level=None, output=o3, variables=["all"]).strain())
+        rec.exe(["thermo", "colander", order, rname, kept, case["layout"]], nontrivial=True)
+        if st == "exc":
+            rec.fail("raised", dict(s2, step="strain all after combine " + order), exc_text(val))
+        elif ok:
+            check_state(rec, dict(s2, step="strain all after combine " + order), o3, a.combine(b))
+    if tree_digest(src) != before:
+        rec.fail("input_modified", sub, "the thermochemical input changed on disk")
+    rec.sample({"root": "thermo", "layout": case["layout"], "cook": [rname, kept], "serial": case["serial"]})
+    return rec.result()
 
 
 State = collections.namedtuple("State", "path ref hist depth")
@@ -194,6 +272,8 @@ def check_state(rec, sub, path, exp, floor_cmp=None):
 
 def run_case(case, workdir):
     import amr_kitchen
+    if case["root"] == "thermo":
+        return run_thermo_case(case, workdir)
     rec = Rec()
     recipes = {}
     for nm, src in (("r1", RECIPE), ("r2", RECIPE2)):
